@@ -124,7 +124,7 @@ def cases(tier, seed):
 
 def _nontrivial(case):
     dt = case["datatype"]
-    size = 3 if dt["kind"] == "codon" else 1
+    size = 3 if dt["kind"] == "codon" else dt.get("width", 1)
     seqs = list(case["seqs"].values())
     L = len(seqs[0]) // size
     for i in range(L):
